@@ -648,7 +648,7 @@ func (r *readerRun) run(stream []byte) (evs []Ev) {
 	select {
 	case out := <-done:
 		evs = append(evs, out...)
-	case <-time.After(Watchdog(20 * time.Second)):
+	case <-time.After(Watchdog(watchdogFor(p))):
 		NoteHang()
 		evs = append(evs, Ev{"e": "HANG"})
 	}
@@ -1074,4 +1074,12 @@ func reasonOfClass(class string, n int, ascii []byte) []byte {
 	out := append([]byte{}, ascii[:h]...)
 	out = append(out, seq...)
 	return append(out, ascii[h:pad]...)
+}
+
+// watchdogFor: programs of a concurrent group run under the race detector next to five others
+func watchdogFor(p *RProg) time.Duration {
+	if p.NoAlloc {
+		return 90 * time.Second
+	}
+	return 20 * time.Second
 }
